@@ -248,7 +248,7 @@ func c40(c *an.Check) {
 
 func init() {
 	register(&Def{ID: "C40", Run: c40,
-		Explain:     "Decides: (BOUNDED) the stream-header reader, the packet connection and the message session allocate a body only under their limit and read exactly (the BOUNDED/EXACTREAD obligations of C07/C08 are re-decided here); every packet.NewSession call site passes a positive constant limit <= 64MiB; solicitation hash lists are truncated to maxHashes when sent and before a received list is handed on; (PANIC) for ~90 in-repo decoder functions on the network path (stream headers, framing, pubsub packets, solicitation exchange, signaling messages, WebRTC signals, signed messages, peer IDs, keys, hashes, envelopes) every compiler-unproven bounds check, variable divisor, unchecked type assertion, explicit panic and length-preconditioned crypto call is discharged by a path guard, a fixed-length producer or a reviewed reason. (NILDEREF) (pointer|interface, error) results are dereferenced only behind err==nil in all decoder functions; (OWNERSHIP) no decoder returns storage it released to a pool. Generated codecs of the whole repository: SizeVT sanity, tag agreement, copying UnmarshalVT, guarded sub-slices, encode/size agreement; possibly-absent message fields (generated getters) and pem blocks are dereferenced only when known non-nil, receivers of nil-safe methods excepted by a computed summary.",
+		Explain:     "Decides: (BOUNDED) the stream-header reader, the packet connection and the message session allocate a body only under their limit and read exactly (the BOUNDED/EXACTREAD obligations of C07/C08 are re-decided here); every packet.NewSession call site passes a positive constant limit <= 64MiB; solicitation hash lists are truncated to maxHashes when sent and before a received list is handed on; (PANIC) for ~90 in-repo decoder functions on the network path (stream headers, framing, pubsub packets, solicitation exchange, signaling messages, WebRTC signals, signed messages, peer IDs, keys, hashes, envelopes) every compiler-unproven bounds check, variable divisor, unchecked type assertion, explicit panic and length-preconditioned crypto call is discharged by a path guard, a fixed-length producer or a reviewed reason. (NILDEREF) (pointer|interface, error) results are dereferenced only behind err==nil in all decoder functions; (OWNERSHIP) no decoder returns storage it released to a pool. Generated codecs of the whole repository: SizeVT sanity, tag agreement, copying UnmarshalVT, guarded sub-slices, encode/size agreement; possibly-absent message fields (generated getters) and pem blocks are dereferenced only when known non-nil, receivers of nil-safe methods excepted by a computed summary. (OWNERSHIP) decoders unmarshal into a zero message.",
 		NotCov:      "third-party and standard-library decode internals (protobuf-go-lite, base58, s2, x509, asn1, pion, json) are the trusted base; resource use other than single-message allocation.",
 		Technique:   "static analysis: compiler bounds-check-elimination listing (prove pass) as the obligation set, discharged by SSA path facts / fixed-length provenance / reviewed table; must-pass gates for size limits",
 		Assumptions: commonAssumptions})
